@@ -177,7 +177,8 @@ def realise(case, seed=0):
         K = ufl.Constant(dom)
         fam = {"mathfn": [ufl.sin(F), ufl.exp(G / 4), ufl.cos(x[0]), ufl.ln(2 + F * F), ufl.atan(K * F), ufl.tanh(G),
                           ufl.cosh(F / 2), ufl.sinh(K / 2), ufl.tan(F / 8)],
-               "mathfn2": [ufl.erf(F), ufl.atan2(F, 1 + G * G), (2 + F * F) ** 1.5, ufl.acos(F / 4),
+               "mathfn2": [ufl.erf(F), ufl.atan2(F, 1 + G * G), (2 + F * F) ** 1.5, (1 + G * G) ** 2.5, (1 + F * F) ** 3.5 / 16,
+                           (2 + G * G) ** -0.5, ufl.acos(F / 4),
                            ufl.asin(G / 4), ufl.sqrt(1 + F * F)],
                "bessel": [ufl.bessel_J(1, F), ufl.bessel_Y(0, 1 + G * G), ufl.bessel_J(0, G / 2)],
                "cmathfn": [ufl.exp(F / 4), ufl.sin(G), ufl.cos(K), ufl.sqrt(F), ufl.ln(4 + G), ufl.sinh(F / 2),
